@@ -160,6 +160,14 @@ public:
         return num_elements;
     }
 
+    /// Reads exactly count elements, fewer are an error (pixel data the header promised is missing)
+    void read_all(byte_t* data, std::size_t count)
+    {
+        io_error_if( read( data, count ) != count
+                   , "file_stream_device: unexpected end of file"
+                   );
+    }
+
     /// Reads array
     template< typename T, int N>
     void read( T (&buf)[N] )
@@ -365,6 +373,14 @@ public:
         } while( count && _in );
 
         return static_cast< std::size_t >( cr );
+    }
+
+    /// Reads exactly count elements, fewer are an error (pixel data the header promised is missing)
+    void read_all(byte_t* data, std::size_t count)
+    {
+        io_error_if( read( data, count ) != count
+                   , "istream_device: unexpected end of stream"
+                   );
     }
 
     /// Reads array
